@@ -270,17 +270,17 @@ def countWhere (km : KindMap) (ks : List String) : Option (Option Sql.Expr) :=
   if ks.isEmpty then some none else (C01.S1.Pred.tr km (.kinds ks)).map some
 
 /-- THE MODEL TRANSLATOR on the proved fragment, parametrised by the hop's join-order choice `flipOf` / `flipCh` and by whether the
-count-store fast path is on: stages S1, S1c (count over a node pattern), S2b and S2c of C01 (`C01.tr4F`); `none` elsewhere.
-The optimised translator (`Translate`) and the unoptimised one (`TranslateUnoptimized`) differ on this fragment in exactly two ways: the
-lowering TraversalDirectionSelection may pick the other join order for a hop, and CountStoreFastPath replaces the count statement when the
-MATCH has no user predicate. -/
-def trVariant (flipOf : C01.S2.Query → Bool) (flipCh : C01.Ch.Query → Bool) (fastPath : Bool) (km : KindMap) (q : Cy.Query) :
-    Option (Sql.Stmt × List (String × Val)) := C01.tr4F flipOf flipCh fastPath km q
+count-store fast path is on: stages S1, S1c (count over a node pattern), S2b, S2c and S2n (count over a hop) of C01 (`C01.tr5F`); `none` elsewhere.
+The optimised translator (`Translate`) and the unoptimised one (`TranslateUnoptimized`) differ on this fragment in exactly three ways:
+the lowering TraversalDirectionSelection may pick the other join order for a hop, ProjectionPruning drops the unread bindings from the hop
+frame, and CountStoreFastPath replaces the count statement when the MATCH has no user predicate. -/
+def trVariant (flipOf : C01.S2.Query → Bool) (flipCh : C01.Ch.Query → Bool) (flipN : C01.S2n.Query → Bool) (optimised : Bool) (km : KindMap)
+    (q : Cy.Query) : Option (Sql.Stmt × List (String × Val)) := C01.tr5F flipOf flipCh flipN optimised optimised km q
 
 /-- with the optimiser: the model's approximation of the direction choice (see `C01.tr2F`), fast path on -/
-def trOpt (km : KindMap) (q : Cy.Query) : Option (Sql.Stmt × List (String × Val)) := trVariant C01.flipOpt (fun _ => false) true km q
+def trOpt (km : KindMap) (q : Cy.Query) : Option (Sql.Stmt × List (String × Val)) := trVariant C01.flipOpt (fun _ => false) (fun _ => false) true km q
 
 /-- without the optimiser -/
-def trUnopt (km : KindMap) (q : Cy.Query) : Option (Sql.Stmt × List (String × Val)) := trVariant C01.flipUnopt (fun _ => false) false km q
+def trUnopt (km : KindMap) (q : Cy.Query) : Option (Sql.Stmt × List (String × Val)) := trVariant C01.flipUnopt (fun _ => false) (fun _ => false) false km q
 
 end Dawgs.C02
